@@ -306,9 +306,8 @@ class CallbacksExecutor:
         )
 
     async def async_all(self, *args, **kwargs):
-        coros = [condition(*args, **kwargs) for condition in self]
-        for coro in asyncio.as_completed(coros):
-            if not await coro:
+        for condition in self:
+            if not await condition(*args, **kwargs):
                 return False
         return True
 
